@@ -11,7 +11,7 @@
 From mathcomp Require Import all_ssreflect all_algebra.
 Require Import C04.Model C04.ProofsBridge C04.ProofsTri C04.ProofsChol C04.ProofsStruct C04.ProofsCholFactor
                C04.ProofsKron C04.ProofsKronTri C04.ProofsEig C04.ProofsEigKron C04.ProofsBlock C04.ProofsAlg
-               C04.ProofsJitter C04.ProofsSound C04.ProofsFactor C04.ProofsKronDiag.
+               C04.ProofsJitter C04.ProofsSound C04.ProofsFactor C04.ProofsKronDiag C04.ProofsSumKron.
 Set Implicit Arguments.
 Unset Strict Implicit.
 Unset Printing Implicit Defensive.
@@ -96,6 +96,33 @@ Fixpoint all2P (T U : Type) (P : T -> U -> Prop) (a : seq T) (b : seq U) : Prop 
   | _, _ => False
   end.
 
+(* the inverse root root_inv_decomposition(method="cholesky") returns for a dense matrix whose plain factorisation succeeds:
+   (L^-1)^T with L the Cholesky factor (size 1: 1 / sqrt) - independent of the settings *)
+Definition inv_root_spec (m : nat) (C : mat F) : mat F :=
+  if m == 1%N then [:: [:: 1 / Num.sqrt (get C 0 0)]]
+  else tri_inv_t RA m (if m == 1%N then [::] else (chol RA m C).1).
+
+(* one Kronecker position of a SumKronecker operator as the record ProofsSumKron works with *)
+Definition skf_of (f1 f2 : opd) (e : eigd F) : skf F :=
+  Skf (osize f2) (get (dense_of RA f1)) (get (dense_of RA f2)) (inv_root_spec (osize f2) (dense_of RA f2)) e.1.2 e.2.
+Fixpoint skfs (fs1 fs2 : seq opd) (eig : seq (eigd F)) : seq (skf F) :=
+  match fs1, fs2, eig with
+  | f1 :: fs1', f2 :: fs2', e :: eig' => skf_of f1 f2 e :: skfs fs1' fs2' eig'
+  | _, _, _ => [::]
+  end.
+(* per position: sizes agree, C_i symmetric with a successful plain Cholesky, the oracle's specification
+   R_i^T A_i R_i = Q_i diag(w_i) Q_i^T *)
+Definition sk_pos_ok (f1 f2 : opd) (e : eigd F) : Prop :=
+  [/\ osize f1 = osize f2 /\ e.1.1 = osize f2, (0 < osize f2)%N, dense_wf f2, eig_wf e
+    & forall i j, (i < osize f2)%N -> (j < osize f2)%N ->
+        fe (mulfac (mulfac (rtfac (skf_of f1 f2 e)) (afac (skf_of f1 f2 e))) (rfac (skf_of f1 f2 e))) i j = qwq e i j].
+Fixpoint all3P' (P : opd -> opd -> eigd F -> Prop) (a b : seq opd) (c : seq (eigd F)) : Prop :=
+  match a, b, c with
+  | x :: a', y :: b', z :: c' => P x y z /\ all3P' P a' b' c'
+  | [::], [::], [::] => True
+  | _, _, _ => False
+  end.
+
 Fixpoint wfpd (o : opd) : Prop :=
   match o with
   | DGeneric _ _ | DAddedDiag _ _ => dense_wf o
@@ -127,6 +154,9 @@ Fixpoint wfpd (o : opd) : Prop :=
           else
             all3P (@kd_spec F) (map (fun f => Fac (osize f) (osize f) (get (dense_of RA f))) fs) eig ds /\
             (forall J, (J < osize o)%N -> vget (kron_evals RA (map snd eig)) J + 1 != 0)]
+  | DSumKron fs1 fs2 eig =>
+      [/\ dense_wf o, all3P' sk_pos_ok fs1 fs2 eig
+        & forall J, (J < osize o)%N -> 0 < vget (kron_evals RA (map snd eig)) J + 1]
   | _ => False
   end.
 
@@ -487,6 +517,121 @@ case: cf => -[pos dwf [sp nzW]].
   by rewrite mxE; apply: nzW; rewrite osize_kkd pKm.
 Qed.
 
+(* ---------------------------------------------------------------- sum of two Kronecker products *)
+Lemma inv_root_some s m (C : mat F) : chol_ok m C ->
+  (m == 1%N) || (m <= max_cholesky_size s)%N -> inv_root RA s m C = Some (inv_root_spec m C).
+Proof.
+move=> ok; rewrite /inv_root /inv_root_spec; case: eqP => [//|/eqP ne1] /= le.
+rewrite /choose_root_method le /dense_cholesky (negbTE ne1).
+have := ok ne1; case E: (chol RA m C) => [L info] /= e0; rewrite e0 in E.
+by rewrite (psd_safe_nojitter _ _ E).
+Qed.
+
+Lemma get_tri_inv_t m (L : mat F) a i : (a < m)%N ->
+  get (tri_inv_t RA m L) a i = vget (tri_solve RA false m L (unitv RA m a)) i.
+Proof. by move=> la; rewrite /tri_inv_t /Model.get nth_mkseq. Qed.
+
+Lemma inv_root_spec_ok m (C : mat F) : (0 < m)%N -> symmetric m C -> (m = 1%N -> 0 < get C 0 0) -> chol_ok m C ->
+  let R := inv_root_spec m C in
+  (mxo m m R)^T *m mxo m m C *m mxo m m R = 1%:M.
+Proof.
+move=> m0 sym p1 ok R; rewrite /R /inv_root_spec; case: eqP => [e1|/eqP ne1].
+- move: (p1 e1) => c0; rewrite e1; apply/matrixP => i j; rewrite !ord1 !mxE big_ord_recl big_ord0 addr0 !mxE.
+  rewrite big_ord_recl big_ord0 addr0 !mxE /Model.get /= -/(Model.get RA C 0 0).
+  have sn : Num.sqrt (get C 0 0) != 0 by rewrite gt_eqF // sqrtr_gt0.
+  by rewrite !div1r mulrAC -invfM -expr2 sqr_sqrtr ?(ltW c0) // mulVf // lt0r_neq0.
+- have := ok ne1; case E: (chol RA m C) => [L info] /= e0; rewrite e0 in E.
+  have [lo nz HL] := chol_factor_correct E sym.
+  have un := @tri_unit F (@rsq F) (@rlt F) false m L lo nz.
+  have eR : mxo m m (tri_inv_t RA m L) = (invmx (mxo m m L))^T.
+    apply/matrixP => a i; rewrite !mxE get_tri_inv_t //.
+    have /colP/(_ i) := @tri_solve_lin F (@rsq F) (@rlt F) false m L (unitv RA m a) lo nz.
+    rewrite !mxE => ->; rewrite (bigD1 a) //= big1 ?addr0.
+      by rewrite mxE /unitv /Model.vget nth_mkseq // eqxx mulr1.
+    move=> k ne; rewrite mxE /unitv /Model.vget nth_mkseq //.
+    by rewrite -(inj_eq val_inj) /= in ne; rewrite (negbTE ne) mulr0.
+  by rewrite eR trmxK -HL !mulmxA mulVmx // mul1mx -trmx_mul mulVmx // trmx1.
+Qed.
+
+Lemma skfs_ok fs1 fs2 eig : all3P' sk_pos_ok fs1 fs2 eig ->
+  [/\ all_sk (skfs fs1 fs2 eig), es_of (skfs fs1 fs2 eig) = eig,
+      As_of (skfs fs1 fs2 eig) = map ofac fs1 /\ Cs_of (skfs fs1 fs2 eig) = map ofac fs2,
+      allc (fun f => (0 < osize f)%N) fs1 /\ allc (fun f => (0 < osize f)%N) fs2
+    & forall s, all (fun f => (osize f == 1%N) || (osize f <= max_cholesky_size s)%N) fs2 ->
+        map (fun f => (osize f, inv_root RA s (osize f) (dense_of RA f))) fs2
+        = map (fun p => (skm p, Some (skR p))) (skfs fs1 fs2 eig)].
+Proof.
+elim: fs1 fs2 eig => [|f1 fs1 IH] [|f2 fs2] [|e eig] //=.
+case=> [[[es1 es2] p2 dwf wfe hA] /IH [ask ees [eA eC] [pos1 pos2] Hr]].
+have [sym p1 ok] := dwf.
+case: e es2 wfe hA => [[m Q] w] /= em; rewrite em => wfe hA.
+split=> //.
+- split=> //; split=> // i j li lj.
+  have /matrixP/(_ (Ordinal li) (Ordinal lj)) := inv_root_spec_ok p2 sym p1 ok.
+  rewrite !mxE -(inj_eq val_inj) /= => <-.
+  apply: eq_bigr => b _; rewrite !mxE; congr (_ * _).
+  by apply: eq_bigr => a _; rewrite !mxE get_mtab.
+- by rewrite ees.
+- by rewrite eA eC /ofac es1.
+- by rewrite es1.
+- move=> s /andP[l2 /Hr ->].
+  by rewrite (inv_root_some ok l2).
+Qed.
+
+Lemma osize_sk fs1 fs2 eig : osize (DSumKron fs1 fs2 eig) = prodm (map ofac fs2).
+Proof.
+rewrite /osize /=; elim: fs2 => [|f fs IH] /=; first by rewrite /prodm big_nil.
+by rewrite IH /prodm big_cons.
+Qed.
+
+Lemma dense_sk fs1 fs2 eig I J :
+  allc (fun f => (0 < osize f)%N) fs1 -> allc (fun f => (0 < osize f)%N) fs2 ->
+  prodm (map ofac fs1) = prodm (map ofac fs2) ->
+  (I < prodm (map ofac fs2))%N -> (J < prodm (map ofac fs2))%N ->
+  get (dense_of RA (DSumKron fs1 fs2 eig)) I J = kron (map ofac fs1) I J + kron (map ofac fs2) I J.
+Proof.
+move=> pos1 pos2 eN IM JM; rewrite /= -/(kmats fs1) -/(kmats fs2).
+have := kmats_size fs1; have := @kmats_entry fs1 I J pos1; rewrite eN => /(_ IM JM).
+have := @kmats_entry fs2 I J pos2 IM JM.
+case: (kmats fs1) => N1 K1; case: (kmats fs2) => N2 K2 /= e2 e1 eN1.
+by rewrite get_mtab ?eN1 ?eN // e1 e2.
+Qed.
+
+(* SumKroneckerLinearOperator._solve with exact (Cholesky) inverse roots *)
+Lemma sumkron_sound s fs1 fs2 eig :
+  wfpd (DSumKron fs1 fs2 eig) ->
+  all (fun f => (osize f == 1%N) || (osize f <= max_cholesky_size s)%N) fs2 ->
+  sound_fn (DSumKron fs1 fs2 eig) (run_method RA s (DSumKron fs1 fs2 eig) (MSumKron true (map csize (map (@cls_of F) fs2)))).
+Proof.
+move=> [dwf spec posW] small B.
+have [ask ees [eA eC] [pos1 pos2] Hr] := skfs_ok spec.
+set ps := skfs fs1 fs2 eig in ask ees eA eC Hr.
+have [wfa [pa1 pa2 pc1 pc2] _ _ _] := sk_global ask.
+have eN2 : prodm (map ofac fs2) = prodm (map (@qfac F) (es_of ps)) by rewrite -eC.
+have eN1 : prodm (map ofac fs1) = prodm (map ofac fs2) by rewrite -eA -eC pa1 pc1.
+have -> : run_method RA s (DSumKron fs1 fs2 eig) (MSumKron true (map csize (map (@cls_of F) fs2))) B
+        = Some (sumkron_apply RA (map (fun p => (skm p, skR p)) ps) (es_of ps) (size B) B).
+  rewrite ees /= (Hr s small) -!map_comp.
+  have -> : all (fun x : nat * option (mat F) => isSome x.2) [seq (skm p, Some (skR p)) | p <- ps] by elim: (ps) => [|p l ih].
+  by [].
+eexists; split; first by reflexivity.
+  by rewrite /sumkron_apply /kron_apply /cols_of_flat size_mkseq.
+move=> j jB.
+have c0 : (0 < size B)%N by apply: leq_ltn_trans jB.
+set N := prodm (map (@qfac F) (es_of ps)) in eN2.
+have posW' : forall J : 'I_N, 0 < (\row_J vget (kron_evals RA (map snd (es_of ps))) J) 0 J + 1.
+  by move=> J; rewrite mxE ees; apply: posW; rewrite osize_sk eN2.
+have H := sumkron_apply_correct B ask c0 jB posW'.
+pose Ab : 'M[F]_N := \matrix_(I, J) kron (As_of ps) I J.
+pose Cb : 'M[F]_N := \matrix_(I, J) kron (Cs_of ps) I J.
+have eo : osize (DSumKron fs1 fs2 eig) = N by rewrite osize_sk.
+apply: (@solves_entry _ _ _ N (mxfun (Ab + Cb)) eo).
+- move=> I J IM JM.
+  by rewrite (mxfunE _ (Ordinal IM) (Ordinal JM)) (@dense_sk fs1 fs2 eig I J pos1 pos2 eN1) ?eN2 // !mxE eA eC.
+- move=> I IM; have /colP/(_ (Ordinal IM)) := H; rewrite !mxE => <-.
+  by apply: eq_bigr => J _; rewrite (mxfunE _ (Ordinal IM) J) !mxE.
+Qed.
+
 (* ---------------------------------------------------------------- block-diagonal / block-interleaved, any block solver *)
 Local Notation d0 := (DIdentity F 0).
 
@@ -572,6 +717,7 @@ elim/opd_ind': o => //.
   by apply/(all_nthP d0) => i; rewrite sz => /sg /sound_some.
 (* (BatchRepeat: the plan and the matrix are those of the base - closed by conversion) *)
 - by move=> cf fs ds eig _ [_ wf _]; apply: plan_dense_sound => //; case: cf.
+- by move=> fs1 fs2 eig _ _ [wf _ _]; exact: plan_dense_sound.
 Qed.
 
 (* ---------------------------------------------------------------- EVERY ROUTE the selector can take *)
@@ -696,6 +842,16 @@ elim/opd_ind': o => //.
   rewrite /route_ok; case: cf wf Hcs => wf Hcs; split=> //.
   + by apply: (@solve_fn_sound s (DKronAddedKronDiag true fs ds eig) (MEigKron true (map csize (map (@cls_of F) fs)))).
   + by apply: (@solve_fn_sound s (DKronAddedKronDiag false fs ds eig) (MEigKron false (map csize (map (@cls_of F) fs)))).
+- (* SumKronecker: exact inverse roots + eigen-shift; a Lanczos root makes the route non-direct *)
+  move=> fs1 fs2 eig _ _ wf.
+  pose ex := all (fun f : cls => if choose_root_method s (csize f) is RootCholesky then true else csize f == 1%N) (map (@cls_of F) fs2).
+  have Hcs : direct (MSumKron ex (map csize (map (@cls_of F) fs2))) ->
+             sound_fn (DSumKron fs1 fs2 eig) (run_method RA s (DSumKron fs1 fs2 eig) (MSumKron ex (map csize (map (@cls_of F) fs2)))).
+    rewrite /= => e; rewrite e; apply: sumkron_sound => //.
+    move: e; rewrite /ex all_map; apply: sub_all => f /=.
+    by rewrite /choose_root_method -/(osize f) orbC; case: (osize f <= _)%N.
+  rewrite /route_ok; split=> //.
+  exact: (@solve_fn_sound s (DSumKron fs1 fs2 eig) (MSumKron ex (map csize (map (@cls_of F) fs2)))).
 Qed.
 
 (* ---------------------------------------------------------------- THE THEOREMS *)
